@@ -35,6 +35,7 @@ type scenario struct {
 	procs   map[string]*sproc
 	names   []string
 	t0      time.Time
+	noClock bool
 	mu      sync.Mutex
 	evs     []J // events of the current step in the order they happened
 	extra   func() J
@@ -90,7 +91,13 @@ func (s *scenario) ev(e J) {
 	s.mu.Unlock()
 }
 
-func (s *scenario) now() int { return int(time.Since(s.t0) / tickDur) }
+// now is the scenario's clock in ticks; real-time scenarios that judge no durations pin it to 0 (noClock).
+func (s *scenario) now() int {
+	if s.noClock {
+		return 0
+	}
+	return int(time.Since(s.t0) / tickDur)
+}
 
 type schedStep struct {
 	A       string `json:"a"`
